@@ -144,6 +144,15 @@ MISSED_FIRST = {
  "C20j-3": "needs an opacity of exactly 0 (the converter generator avoided it); 0 is now one of the opacities (added while the round-10 deliveries were coming in)",
  "C11j-1": "needs the disivg command writing with -o into a file that already holds a longer listing; every other run of C11's binary sub-monitor now writes to one and the same file",
  "C18j-1": "needs mdicons.ParseDir on two icon trees with the same names and different PNG sizes; C18's ParseFile pipeline now also converts two such trees and compares listing, file count and PNG totals with what the trees were written with (added while the round-10 deliveries were coming in)",
+ "C12k-2": "needs a viewBox whose far corner is exactly at the origin (MaxX = MaxY = 0); a quarter of C12's ordinary boxes now touch an axis or the origin with any of their edges or corners, and the boundary list holds five such boxes",
+ "C02k-1": "needs a target rectangle described with Min.X > Max.X (a struct literal); C02 now renders into rectangles inverted in x, in y and in both, and the recording rasterizer reports a Reset with a negative size online",
+ "C04k-2": "needs an empty target rectangle that still has a height, and level-of-detail bounds that separate 0 from that height; C04's empty targets are now of every kind (no width, no height, inverted) with such bounds (first caught by C02 and C05 only)",
+ "C15k-1": "needs gradient stop colours that were never written but are the values Reset initialised the registers with; one gradient in five of C15 now takes its stops from the custom palette (first caught by C04, C14 and C17 only)",
+ "C14k-1": "needs a Decode that fails after its options were applied, followed by a Decode with single-index overrides; a quarter of C14's cases now follow such a failed call (first caught by C02, C17 and C18 only)",
+ "C09k-1": "needs a register holding a value that cannot be painted itself, used as the operand of a later blend inside a Renderer; new sub-monitor C09 renderer-registers (first caught by C04 only)",
+ "C06k-1": "needs an Encoder that was Reset while a path with buffered operations was open, and an arc in the first run of the next graphic; C06's encoded route now uses an Encoder with a past half of the time (first caught by C17 only)",
+ "C05k-1": "a decoder fault (repeat count of relative line runs of 17..32) filed under the geometry property; caught by C03 and C01, whose subject it is - C05 feeds drawing operations to the Renderer directly",
+ "C05k-2": "an encoder fault (run length counted in uint8) filed under the geometry property; caught by C01 and C07, whose subject it is",
  "C20-2": "SetTransform was called once with literals; C20 now configures the generator twice from a caller-held slice and checks that the slice is unchanged",
 }
 
